@@ -80,10 +80,13 @@ exchange(struct obs *o, const char *key, const char *ctx)
     }
 }
 
+static size_t window; /* > 0: the next instances read through a getbuffer source with that window */
+
 static void
 fresh(int serial, int mem16, size_t blocksize)
 {
     vh_arena_reset();
+    rp_next_window = window;
     rp_setup(&H, serial, mem16, blocksize);
     since_reset = 0;
 }
@@ -114,6 +117,16 @@ u_lengths(uint64_t idx, void *arg)
     size_t B = bs[(idx >> 1) % 14];
     size_t cap = B - sizeof(RPFrame);
     size_t hdr = serial ? 16 : 12;
+    /* units 28..: TCP with a source that hands out several octets at a time (getbuffer extension) */
+    static const size_t wins[] = { 2, 5, 16, 17, 40 };
+    window = idx >= 28 ? wins[(idx - 28) / 14 % 5] : 0;
+    if (window) {
+        serial = 0;
+        hdr = 12;
+        B = bs[(idx - 28) % 14];
+        cap = B - sizeof(RPFrame);
+        VH_COUNT("lengths: multi-octet chunks into the receive sink");
+    }
     unsigned char raw[400], pl[300], wire[900];
     char key[80], ctx[160];
     for (size_t L = 0; L <= cap + 40; L++) {
@@ -179,6 +192,7 @@ u_lengths(uint64_t idx, void *arg)
             }
         }
     }
+    window = 0;
     vh_sig(0x09000000ull ^ idx);
     if (idx == 0)
         vh_sample("lengths", "block sizes 65..200 (capacity = block - sizeof(RPFrame) = block - 64): every frame length "
@@ -275,6 +289,10 @@ u_allocfail(uint64_t idx, void *arg)
     unsigned char raw[200], pl[64], wire[500];
     char key[80], ctx[200];
     size_t ws = mem16 ? 2 : 1;
+    static const size_t wins[] = { 0, 3, 16, 17, 24, 64 };
+    window = serial ? 0 : wins[(idx >> 2) % 6];
+    if (window)
+        VH_COUNT("allocation failure with multi-octet chunks into the fallback buffer");
     for (int failat = 0; failat < 6; failat++) {
         fresh(serial, mem16, 160);
         H.fail_alloc_at = failat;
@@ -321,6 +339,7 @@ u_allocfail(uint64_t idx, void *arg)
             }
         }
     }
+    window = 0;
     vh_sig(0x09200000ull ^ idx);
 }
 
@@ -482,7 +501,7 @@ u_stream(uint64_t idx, void *arg)
 void
 harness_run(void)
 {
-    for (uint64_t i = 0; i < 28; i++)
+    for (uint64_t i = 0; i < 28 + 70; i++)
         vh_unit("lengths", i, u_lengths, NULL);
     for (uint64_t i = 0; i < 28; i++)
         vh_unit("reads", i, u_reads, NULL);
@@ -499,7 +518,9 @@ harness_run(void)
                                  "request served before/after the failing allocation",
                                  "channel error before the first octet of a frame",
                                  "channel error after the first octets were stored",
-                                 "framing error / source ends inside a frame", "stream: recv/process/free rounds" };
+                                 "framing error / source ends inside a frame", "stream: recv/process/free rounds",
+                                 "lengths: multi-octet chunks into the receive sink",
+                                 "allocation failure with multi-octet chunks into the fallback buffer" };
     for (size_t i = 0; i < sizeof req / sizeof req[0]; i++)
         vh_require(req[i]);
 }
